@@ -349,6 +349,14 @@ class Prop(core.Prop):
                     raise StopIteration
                 writearlpackedbit(f, outp)
                 wraw = open(outp, 'rb').read()
+                # the same file written again onto a path that already holds a LONGER packed-bit file
+                with open(outp, 'wb') as fh:
+                    fh.write(wraw + wraw)
+                writearlpackedbit(f, outp)
+                if open(outp, 'rb').read() != wraw:
+                    vs.append(viol('writer-keeps-old-content', ('writearlpackedbit',),
+                                   'writing %d bytes onto a path that held %d bytes leaves %d bytes'
+                                   % (len(wraw), 2 * len(wraw), os.path.getsize(outp)), **scope))
                 d = rarl.decode_file(wraw)
                 for pr in d['problems'][:3]:
                     vs.append(viol('writer-layout', ('writearlpackedbit',), pr, **scope))
